@@ -580,6 +580,10 @@ class Restorer(object):
         while again and rounds < 8:
             again = False
             rounds += 1
+            for lp_ in ast.walk(fnode):
+                if isinstance(lp_, (ast.For, ast.While)):
+                    for x_ in lp_.body:
+                        x_._restore_parent = lp_
             for blk in _blocks(fnode):
                 # (6) `x = A if T else B` / `return A if T else B` where T is a guard the confirmed tree tests in an if-statement:
                 # read as that if-statement
@@ -611,6 +615,23 @@ class Restorer(object):
                         changed += 1
                         again = True
                         break
+                if again:
+                    break
+                # (7) a guard clause `if C: continue` in front of the rest of a loop body is `if not C: <rest>` when that is
+                # a guard the confirmed tree tests
+                for i, s in enumerate(blk):
+                    if isinstance(s, ast.If) and not s.orelse and len(s.body) == 1 and isinstance(s.body[0], ast.Continue) and blk[i + 1:] \
+                            and isinstance(getattr(s, '_restore_parent', None), (ast.For, ast.While)) and known(s.test) is None:
+                        neg = ast.UnaryOp(op=ast.Not(), operand=s.test)
+                        if known(neg) is not None and not any(isinstance(x, (ast.Continue, ast.Break)) for r_ in blk[i + 1:] for x in ast.walk(r_) if False):
+                            s.test = neg
+                            ast.copy_location(neg, s)
+                            s.body = blk[i + 1:]
+                            del blk[i + 1:]
+                            self.log(s, 'guard clause `if ...: continue` read as `if %s:` around the rest of the loop body' % known(neg)[:50])
+                            changed += 1
+                            again = True
+                            break
                 if again:
                     break
                 # (4) `r = n % b` then `n = n // b` is `n, r = divmod(n, b)` when that is what the confirmed tree says
